@@ -3,7 +3,7 @@
    Model/Engines.v (entry points, .aux files, READ) over Model/Bst.v (the interpreter) and
    Model/Citations.v (citation resolution). *)
 From Pybtex Require Import Base.Prelude Base.PyChar Base.PyStr Model.BibtexStr Model.Wrap Model.Bst Model.Citations Model.Engines
-  Proofs.EnginesSort Proofs.Engines.
+  Proofs.EnginesSort Proofs.Engines Proofs.EnginesExec Proofs.EnginesMeta Proofs.EnginesOrder.
 From Coq Require Import Permutation Sorted.
 
 (* Driving the engine through an .aux file = the equivalent explicit call, byte for byte: whenever the
@@ -63,6 +63,61 @@ Theorem unwanted_irrelevant : forall db1 e db2 cites m,
   engine_read (db1 ++ e :: db2) cites m = engine_read (db1 ++ db2) cites m.
 Proof. exact engine_read_skip. Qed.
 Print Assumptions unwanted_irrelevant.
+
+(* ... and so the output of the entry point does not change: same returned string, same reports *)
+Theorem uncited_irrelevant_output : forall fmt_name cw fuel fs f db1 e db2 sty cites bf m,
+  never_wanted (db1 ++ db2) cites (b_key e) ->
+  format_from_string fmt_name cw fuel fs (f, db1 ++ e :: db2) sty (Some cites) bf m =
+  format_from_string fmt_name cw fuel fs (f, db1 ++ db2) sty (Some cites) bf m.
+Proof. exact format_from_string_uncited. Qed.
+Print Assumptions uncited_irrelevant_output.
+
+(* Re-ordering the database file changes nothing READ finds, when no key is repeated (up to case),
+   '*' is neither cited nor cross-referenced, and both orders obey BibTeX's ordering rule: an entry
+   that is reached through a cross-reference and is not itself cited stands after the (reached)
+   entries referring to it.  `reach` is the order-independent closure "cited, or cross-referenced
+   by a reached entry". *)
+Theorem file_order_irrelevant : forall db db' cites m,
+  Permutation db db' -> NoDup (map lkey db) -> nostar cites db ->
+  children_first cites db -> children_first cites db' ->
+  engine_read db cites m = engine_read db' cites m.
+Proof. exact engine_read_reorder. Qed.
+Print Assumptions file_order_irrelevant.
+
+(* the ordering rule cannot be dropped (finding F13, shared with C05): with the cross-referenced,
+   uncited entry FIRST, the one-pass reader has not been asked for it yet and drops it *)
+Theorem file_order_refuted : exists db db' cites m,
+  Permutation db db' /\ NoDup (map lkey db) /\ nostar cites db /\ children_first cites db /\
+  r_cites (engine_read db cites m) <> r_cites (engine_read db' cites m).
+Proof. exact file_order_counterexample. Qed.
+Print Assumptions file_order_refuted.
+
+(* what the one-pass reader keeps, independently of the order: exactly the entries whose key is
+   cited or cross-referenced (transitively) from a cited entry *)
+Theorem reader_keeps_reachable : forall cites db e,
+  nostar cites db -> NoDup (map lkey db) -> children_first cites db ->
+  (In e (scan cites db []) <-> In e db /\ reach cites db (b_key e)).
+Proof. exact scan_char. Qed.
+Print Assumptions reader_keeps_reachable.
+Theorem reader_is_scan : forall cites db, NoDup (map lkey db) ->
+  stored_entries db cites = map (fun e => (ckey cites (b_key e), e)) (scan cites db []) /\
+  bd_reports (read_db (Some cites) (map proj db)) = [].
+Proof. exact reader_is_scan_lemma. Qed.
+Print Assumptions reader_is_scan.
+
+(* executing style code -- any function, any built-in, while$ included -- never changes the citation
+   list, the database READ found, or what a later READ will find *)
+Theorem exec_preserves_citations : forall fmt_name cw fuel st p st',
+  exec fmt_name cw fuel st p = Ok st' ->
+  st_cites st' = st_cites st /\ st_db st' = st_db st /\ st_reads st' = st_reads st.
+Proof. exact exec_pres. Qed.
+Print Assumptions exec_preserves_citations.
+(* ... and of the commands only READ replaces the citation list and only SORT permutes it *)
+Theorem commands_preserve_citations : forall fmt_name cw fuel st c st',
+  is_read_cmd c = false -> run_command fmt_name cw fuel st c = Ok st' ->
+  Permutation (st_cites st') (st_cites st) /\ st_db st' = st_db st /\ st_reads st' = st_reads st.
+Proof. exact run_command_cites. Qed.
+Print Assumptions commands_preserve_citations.
 
 (* ITERATE {f} executes f exactly once per citation the engine holds, in order, each time with the
    current entry set to that citation's entry; REVERSE {f} does the same over the reversed list. *)
@@ -134,6 +189,20 @@ Proof. vm_compute. split; [eexists; repeat split|split; reflexivity]. Qed.
 Example uncited_example :
   never_wanted [nth 0 ex_db (mkB [] [] []); nth 2 ex_db (mkB [] [] [])] [S_ "b"; S_ "a"] (S_ "u") /\
   r_cites (engine_read ex_db [S_ "b"; S_ "a"] 2) = [S_ "b"; S_ "a"].
+Proof. vm_compute. auto. Qed.
+
+Definition ex_child : bentry := mkB (S_ "c") (S_ "inbook") [(S_ "title", S_ "Tc"); (S_ "crossref", S_ "P")].
+Definition ex_parent : bentry := mkB (S_ "p") (S_ "book") [(S_ "title", S_ "Tp"); (S_ "year", S_ "1999")].
+Definition ex_other : bentry := mkB (S_ "o") (S_ "misc") [].
+(* hypotheses of file_order_irrelevant are met by a non-trivial pair of orders; the parent is pulled in (min_crossrefs 1)
+   and the child inherits its year *)
+Example file_order_example :
+  children_first_b [S_ "c"; S_ "o"] [ex_child; ex_other; ex_parent] = true /\
+  children_first_b [S_ "c"; S_ "o"] [ex_other; ex_child; ex_parent] = true /\
+  nostar [S_ "c"; S_ "o"] [ex_child; ex_other; ex_parent] /\
+  r_cites (engine_read [ex_child; ex_other; ex_parent] [S_ "c"; S_ "o"] 1) = [S_ "c"; S_ "o"; S_ "p"] /\
+  option_map (fun e => alookup str_eqb (S_ "year") (e_fields e))
+    (alookup str_eqb (S_ "c") (r_entries (engine_read [ex_other; ex_child; ex_parent] [S_ "c"; S_ "o"] 1))) = Some (Some (S_ "1999")).
 Proof. vm_compute. auto. Qed.
 
 Example sort_example :
